@@ -25,15 +25,41 @@ theorem text_set (b : Buf) (v : Text) (h : b.idx < b.lines.length) :
     ({ b with lines := b.lines.set b.idx v } : Buf).text = v := by
   simp [Buf.text, h]
 
+/-! `_cursor_position_changed` only resets `complete_state` / `yank_nth_arg_state` -/
+@[simp] theorem cursorChanged_lines (b : Buf) (o c : Nat) : (cursorChanged b o c).lines = b.lines := by
+  unfold cursorChanged; split <;> rfl
+@[simp] theorem cursorChanged_idx (b : Buf) (o c : Nat) : (cursorChanged b o c).idx = b.idx := by
+  unfold cursorChanged; split <;> rfl
+@[simp] theorem cursorChanged_cur (b : Buf) (o c : Nat) : (cursorChanged b o c).cur = b.cur := by
+  unfold cursorChanged; split <;> rfl
+@[simp] theorem cursorChanged_sel (b : Buf) (o c : Nat) : (cursorChanged b o c).sel = b.sel := by
+  unfold cursorChanged; split <;> rfl
+@[simp] theorem cursorChanged_multi (b : Buf) (o c : Nat) : (cursorChanged b o c).multi = b.multi := by
+  unfold cursorChanged; split <;> rfl
+@[simp] theorem cursorChanged_undo (b : Buf) (o c : Nat) : (cursorChanged b o c).undo = b.undo := by
+  unfold cursorChanged; split <;> rfl
+@[simp] theorem cursorChanged_redo (b : Buf) (o c : Nat) : (cursorChanged b o c).redo = b.redo := by
+  unfold cursorChanged; split <;> rfl
+@[simp] theorem cursorChanged_readOnly (b : Buf) (o c : Nat) : (cursorChanged b o c).readOnly = b.readOnly := by
+  unfold cursorChanged; split <;> rfl
+@[simp] theorem cursorChanged_hsearch (b : Buf) (o c : Nat) : (cursorChanged b o c).hsearch = b.hsearch := by
+  unfold cursorChanged; split <;> rfl
+@[simp] theorem cursorChanged_enableHS (b : Buf) (o c : Nat) : (cursorChanged b o c).enableHS = b.enableHS := by
+  unfold cursorChanged; split <;> rfl
+@[simp] theorem cursorChanged_hist (b : Buf) (o c : Nat) : (cursorChanged b o c).hist = b.hist := by
+  unfold cursorChanged; split <;> rfl
+@[simp] theorem cursorChanged_text (b : Buf) (o c : Nat) : (cursorChanged b o c).text = b.text := by
+  unfold cursorChanged; split <;> rfl
+
 theorem setCursor_text (b : Buf) (v : Int) : (setCursor b v).text = b.text := by
   simp [setCursor, Buf.text]
 
 theorem setCursor_cur_le (b : Buf) (v : Int) : (setCursor b v).cur ≤ b.text.length := by
-  simp only [setCursor]
+  simp only [setCursor, cursorChanged_cur]
   split <;> split <;> omega
 
 theorem setCursor_cur_le_arg (b : Buf) (v : Int) (hv : 0 ≤ v) : ((setCursor b v).cur : Int) ≤ v := by
-  simp only [setCursor]
+  simp only [setCursor, cursorChanged_cur]
   split <;> split <;> omega
 
 theorem setCursor_inv (b : Buf) (v : Int) (h : Inv b) : Inv (setCursor b v) := by
@@ -49,13 +75,24 @@ theorem setCursor_inv (b : Buf) (v : Int) (h : Inv b) : Inv (setCursor b v) := b
 
 /-- writing text `v` and cursor `c ≤ |v|` into the working line keeps the invariant: the selection
     and the multiple cursors are dropped unless the text is the old one. -/
+theorem inv_cursorChanged (b : Buf) (o c : Nat) (h : Inv b) : Inv (cursorChanged b o c) := by
+  constructor
+  · simpa using h.idx
+  · simpa using h.cur
+  · intro s hs; simp at hs ⊢; exact h.sel s hs
+  · intro p hp; simp at hp ⊢; exact h.multi p hp
+  · simpa using h.undo
+  · simpa using h.redo
+
 theorem writeText_inv (b : Buf) (h : Inv b) (v : Text) (c : Nat) (hc : c ≤ v.length) :
     Inv (writeText b v c) := by
   unfold writeText
+  apply inv_cursorChanged
   by_cases hne : (v != b.text) = true
   · rw [if_pos hne]
     simp only [textChanged]
-    have ht : ({ b with lines := b.lines.set b.idx v, cur := c, sel := none, multi := [], hsearch := none } : Buf).text = v := by
+    have ht : ({ b with lines := b.lines.set b.idx v, cur := c, sel := none, multi := [], hsearch := none,
+                        yank := none, comp := none } : Buf).text = v := by
       simp [Buf.text, h.idx]
     refine ⟨by simpa using h.idx, by rw [ht]; exact hc, ?_, ?_, h.undo, h.redo⟩
     · intro s hs; simp at hs
@@ -852,7 +889,7 @@ theorem fixViCursor_not_pastEnd (a : App) (hc : a.buf.cur ≤ a.buf.text.length)
     obtain ⟨x, hn0, hx, hpx⟩ := last_of_take a.buf.text a.buf.cur hc notNl hlb
     -- the new cursor is cur - 1 and the character there is x ≠ '\n'
     have hcur : (moveCursor a.buf (-1)).cur = a.buf.cur - 1 := by
-      simp only [moveCursor, setCursor]
+      simp only [moveCursor, setCursor, cursorChanged_cur]
       split <;> split <;> omega
     intro hpe
     have hat := hpe.1
